@@ -113,6 +113,16 @@ var allKinds = func() []string {
 // per-method restriction, should one ever be needed, is one line.
 func kindsFor(method string, thorough bool) []string { return allKinds }
 
+// pairKindsFor: kinds for the plans "every call of M1 and of M2 fails" - the
+// cheapest place to save: quick uses the base kinds, a StatusError and the bare
+// sentinels, thorough the whole alphabet.
+func pairKindsFor(method string, thorough bool) []string {
+	if thorough {
+		return allKinds
+	}
+	return append(append([]string(nil), baseKinds...), "status-503", "dup-user-code", "invalid-refresh-token", "no-client-credentials")
+}
+
 func mkErr(kind string) error {
 	if mk := kindByName[kind]; mk != nil {
 		return mk()
@@ -218,19 +228,19 @@ func (w *worker) run(plan engine.E4Plan) engine.E4Obs {
 	for i, c := range o.journal {
 		names[i] = c.Method
 	}
-	res, blamed := judge(p, plan, o)
-	if res.Sig != "" && blamed != "" && !isBaseKind(blamed) {
-		// The violation showed with a kind outside the four base kinds. Name the
-		// discriminating input class: when the same plan with every FAILURE kind
-		// replaced by the opaque error gives the same signature the kind is
-		// irrelevant (one defect site = one signature); otherwise the kind is what
-		// it takes, and the signature says so.
-		gen := generalise(plan, names, o.fired)
-		og := w.execute(p, gen)
-		r2, _ := judge(p, gen, og)
-		same := r2.Sig == res.Sig
-		if !same {
-			res.Sig += "=" + kindFamily(blamed)
+	res, blamedAt := judge(p, plan, o)
+	if res.Sig != "" && blamedAt >= 0 {
+		blamed := kindAt(plan, blamedAt, names[blamedAt])
+		if !isBaseKind(blamed) && !documentedAnswer(names[blamedAt], blamed) {
+			// The blamed failure has a kind outside the four base kinds. Name the
+			// discriminating input class: when the same execution with the blamed
+			// call failing with the opaque error instead gives the same signature, the
+			// kind is irrelevant (one defect site = one signature); otherwise the
+			// kind is what it takes, and the signature says so.
+			gen := generalise(plan, names, o.fired, blamedAt)
+			if r2, _ := judge(p, gen, w.execute(p, gen)); r2.Sig != res.Sig {
+				res.Sig += "=" + kindFamily(blamed)
+			}
 		}
 	}
 	return engine.E4Obs{Result: res, Journal: names, Fired: o.fired}
@@ -246,15 +256,15 @@ func kindAt(plan engine.E4Plan, idx int, method string) string {
 	return plan.Kind
 }
 
-// generalise: the plan with every FAILURE it injected (a fired fault that is not a
-// documented answer of the method it hit) turned into the opaque error, as an
-// index plan over the positions that fired (names = the journal observed under
-// the plan; the prefix up to a fault does not depend on the fault).
-func generalise(plan engine.E4Plan, names []string, fired []int) engine.E4Plan {
+// generalise: the plan as an index plan over the positions that fired (names = the
+// journal observed under the plan; the prefix up to a fault does not depend on the
+// fault), with the kind of the BLAMED fault turned into the opaque error and every
+// other fault as it was.
+func generalise(plan engine.E4Plan, names []string, fired []int, blamedAt int) engine.E4Plan {
 	g := engine.E4Plan{Flow: plan.Flow}
 	for _, i := range fired {
 		k := kindAt(plan, i, names[i])
-		if !documentedAnswer(names[i], k) {
+		if i == blamedAt {
 			k = "plain"
 		}
 		g.Faults = append(g.Faults, engine.E4Fault{Idx: i, Kind: k})
@@ -663,8 +673,9 @@ func unaccepted(p *prepared, a *analysis, o *observation) []string {
 	return out
 }
 
-// judge returns the verdict and, for a violation, the kind of the fault it blames.
-func judge(p *prepared, plan engine.E4Plan, o *observation) (engine.Result, string) {
+// judge returns the verdict and, for a violation, the journal position of the
+// fault it blames (-1: none).
+func judge(p *prepared, plan engine.E4Plan, o *observation) (engine.Result, int) {
 	f := p.f
 	router := rig.Routers[f.router]
 	a := analyse(o.resp)
@@ -674,7 +685,7 @@ func judge(p *prepared, plan engine.E4Plan, o *observation) (engine.Result, stri
 		rule := "baseline-serves/" + f.family
 		if o.resp.Panic != "" {
 			return engine.Bad(rule, "panic", fmt.Sprintf("C10/baseline-panic/%s/%s", router, panicSite(o.resp.Panic)),
-				"fault-free request panics: "+o.resp.Panic), ""
+				"fault-free request panics: "+o.resp.Panic), -1
 		}
 		class := a.successClass()
 		if ec, isErr := a.errorClass(&p.fin); isErr {
@@ -683,17 +694,17 @@ func judge(p *prepared, plan engine.E4Plan, o *observation) (engine.Result, stri
 		}
 		if class != f.expect {
 			return engine.Bad(rule, class, fmt.Sprintf("C10/baseline/%s/%s:%s", router, f.family, f.kase),
-				fmt.Sprintf("the fault-free run of %s must be %q, got %q: %s", f.name, f.expect, class, describe(o))), ""
+				fmt.Sprintf("the fault-free run of %s must be %q, got %q: %s", f.name, f.expect, class, describe(o))), -1
 		}
 		// self-check of the acceptance relation used below: whatever a fault-free
 		// success hands out was accepted by the storage
 		if class != "refused" {
 			if u := unaccepted(p, a, o); len(u) > 0 {
 				return engine.Bad(rule, "unstored:"+class, fmt.Sprintf("C10/baseline/%s/%s:%s", router, f.family, f.kase),
-					fmt.Sprintf("the fault-free run of %s hands out %v that the storage does not hold afterwards: %s", f.name, u, describe(o))), ""
+					fmt.Sprintf("the fault-free run of %s hands out %v that the storage does not hold afterwards: %s", f.name, u, describe(o))), -1
 			}
 		}
-		return engine.OK(rule, class), ""
+		return engine.OK(rule, class), -1
 	}
 
 	rule := "fault-fails-closed/" + f.family
@@ -707,13 +718,12 @@ func judge(p *prepared, plan engine.E4Plan, o *observation) (engine.Result, stri
 		}
 	}
 	firstMethod := o.journal[blamedAt].Method
-	blamed := kindAt(plan, blamedAt, firstMethod)
 	input := f.family + ":" + firstMethod
 
 	// (1) the handler does not panic
 	if o.resp.Panic != "" {
 		return engine.Bad(rule, "panic", fmt.Sprintf("C10/panic/%s/%s", router, panicSite(o.resp.Panic)),
-			fmt.Sprintf("handler panics when storage call fails (%s): %s; %s", plan, o.resp.Panic, describe(o))), blamed
+			fmt.Sprintf("handler panics when storage call fails (%s): %s; %s", plan, o.resp.Panic, describe(o))), blamedAt
 	}
 
 	ec, isErr := a.errorClass(&p.fin)
@@ -721,7 +731,7 @@ func judge(p *prepared, plan engine.E4Plan, o *observation) (engine.Result, stri
 		// (2) an error answer must not carry codes, tokens or user claims
 		if l := leaks(p, a, o); len(l) > 0 {
 			return engine.Bad(rule, "leak-in-error", fmt.Sprintf("C10/leak-in-error/%s/%s", router, input),
-				fmt.Sprintf("error response contains %v (%s): %s", l, plan, describe(o))), blamed
+				fmt.Sprintf("error response contains %v (%s): %s", l, plan, describe(o))), blamedAt
 		}
 		// (3) an error redirect goes to the ALREADY VALIDATED redirect URI: the client
 		// (authorize) or the stored request (callback) was obtained from the storage
@@ -739,7 +749,7 @@ func judge(p *prepared, plan engine.E4Plan, o *observation) (engine.Result, stri
 			}
 			if !validated {
 				return engine.Bad(rule, "redirect-unvalidated", fmt.Sprintf("C10/error-redirect-before-validation/%s/%s", router, input),
-					fmt.Sprintf("error redirect although neither the client nor the stored request was obtained (%s): %s", plan, describe(o))), blamed
+					fmt.Sprintf("error redirect although neither the client nor the stored request was obtained (%s): %s", plan, describe(o))), blamedAt
 			}
 		}
 		if f.family == "device" && strings.HasPrefix(f.kase, "poll") {
@@ -747,7 +757,7 @@ func judge(p *prepared, plan engine.E4Plan, o *observation) (engine.Result, stri
 				ec += ":" + code
 			}
 		}
-		return engine.OK(rule, ec), ""
+		return engine.OK(rule, ec), -1
 	}
 
 	class := a.successClass()
@@ -755,9 +765,9 @@ func judge(p *prepared, plan engine.E4Plan, o *observation) (engine.Result, stri
 	if f.family == "introspect" && a.status == 200 && a.isJSON && a.js["active"] != true {
 		if l := leaks(p, a, o); len(l) > 0 {
 			return engine.Bad(rule, "leak-in-inactive", fmt.Sprintf("C10/leak-in-error/%s/%s", router, input),
-				fmt.Sprintf("inactive introspection response contains %v (%s): %s", l, plan, describe(o))), blamed
+				fmt.Sprintf("inactive introspection response contains %v (%s): %s", l, plan, describe(o))), blamedAt
 		}
-		return engine.OK("introspection-not-active/"+f.family, "inactive"), ""
+		return engine.OK("introspection-not-active/"+f.family, "inactive"), -1
 	}
 	// Either (DESIGN 1.6): discovery is not a flow; information only
 	if f.family == "discovery" {
@@ -765,7 +775,7 @@ func judge(p *prepared, plan engine.E4Plan, o *observation) (engine.Result, stri
 		if a.js["id_token_signing_alg_values_supported"] != nil {
 			out = "discovery-with-algs"
 		}
-		return engine.OK("information-only/discovery", out), ""
+		return engine.OK("information-only/discovery", out), -1
 	}
 	// Either: nothing failed but calls that returned a value the storage interface
 	// documents as an answer (retry with a new user code / not a refresh token). The
@@ -776,9 +786,9 @@ func judge(p *prepared, plan engine.E4Plan, o *observation) (engine.Result, stri
 		if u := unaccepted(p, a, o); len(u) > 0 {
 			return engine.Bad(rule, "served-unstored:"+class, fmt.Sprintf("C10/unstored-in-success/%s/%s", router, input),
 				fmt.Sprintf("every failing storage call returned a documented retry / not-mine answer, the response is a success (%s) and hands out %v that the storage never accepted (%s): %s",
-					class, u, plan, describe(o))), blamed
+					class, u, plan, describe(o))), blamedAt
 		}
-		return engine.OK(rule, "served:"+class), ""
+		return engine.OK(rule, "served:"+class), -1
 	}
 
 	// (4) success although a storage call failed
@@ -788,7 +798,7 @@ func judge(p *prepared, plan engine.E4Plan, o *observation) (engine.Result, stri
 		what, outcome = "fault-after-response", "served-then-fault:"+class
 	}
 	return engine.Bad(rule, outcome, fmt.Sprintf("C10/%s/%s/%s", what, router, input),
-		fmt.Sprintf("storage call %s failed, yet the answer is a success (%s) (%s): %s", firstMethod, class, plan, describe(o))), blamed
+		fmt.Sprintf("storage call %s failed, yet the answer is a success (%s) (%s): %s", firstMethod, class, plan, describe(o))), blamedAt
 }
 
 func containsInt(l []int, x int) bool {
